@@ -87,7 +87,13 @@ def case(item):
         # where is the app thread?
         th = r.get("threads") or []
         app = [t for t in th if t[0] == 0]
-        o["viol"].append(("C15:teardown-hangs@%s/%s" % (cls, point), "all threads blocked (app thread: %s): %s" % (app, json.dumps(th)[:160])))
+        pending = point.startswith(("teardown-after-N-pictures,nothing-retrieved", "teardown-after-eos-before-drain", "teardown-after-N-packets-of-final-drain"))
+        if pending and app and app[0][1] == "join":
+            # one defect, whatever the configuration: coded pictures are pending, a kernel waits for an empty buffer and shutdown never wakes it
+            key = "C15:teardown-hangs@output-pending"
+        else:
+            key = "C15:teardown-hangs@%s/%s" % (cls, point)
+        o["viol"].append((key, "all threads blocked (app thread: %s): %s [%s]" % (app, json.dumps(th)[:160], label)))
         return o
     err = r.get("stderr", "")
     if "LeakSanitizer" in err:
